@@ -18,7 +18,8 @@
             application that was hit earlier in the history by accounting trigger 5 (Core/Ledger.v xnode_removal_trigger:
             a cross-node in-flight real allocation orphaned on its node by application / all-allocations / ask removal):
             the orphan outlives the application (finding C10-orphaned-inflight-real, same defect as C03 trigger 5);
-            also after trigger 9 (placeholder timeout) and trigger 2 (placeholder with in-flight swap released by the shim)
+            also after trigger 9 (placeholder timeout), trigger 2 (placeholder with in-flight swap released by the shim)
+            and trigger 10 (release-all with type PLACEHOLDER_REPLACED)
      1054 = 1004 where every outstanding ask left behind was handed back to the scheduler (allocated -> pending, reversal
             of an in-flight swap) while the application was Completing: DeallocateAsk does not move it back to Running
             (finding C10-completing-with-returned-ask)
@@ -266,7 +267,7 @@ Definition newly (f : ostate -> bool) (pre post : ostate) : bool := negb (f pre)
 
 (* applications hit by trigger 5 so far: the application the removing operation addresses *)
 Definition orphaned_app (pre : ostate) (st : ostep) : list N :=
-  if xnode_removal_trigger pre st || xnode_timeout_trigger pre st ||
+  if xnode_removal_trigger pre st || xnode_timeout_trigger pre st || release_all_replaced_trigger pre st ||
      match known_trigger pre st with Some 2 => true | _ => false end then
     match st_op st with OpAppRemove id => [id] | OpRelease app _ _ => [app] | OpFirePh id => [id] | _ => [] end
   else [].
